@@ -62,7 +62,7 @@ func childReplay(h *recHistory, tag string) ([]blockResult, error) {
 
 func TestC06(t *testing.T) {
 	rec := ev.For("C06")
-	rec.Describe("ABCI-mode differential: a history of 5-25 blocks of signed transactions over all custom modules (several provers proving the same file so that they are credited equal sizes in the same reward block, funded gauges, attestation/report form requests with their height-seeded shuffles, file-tree ACL edits with 2-4 ids, name-service bids, notifications, plus adversarial reflective messages) is generated while executing on a primary app; the recorded signed bytes are then replayed on (i) a second independent app instance in the same process - every case, (ii) the same 1.1 s later - a sample, (iii) a fresh child process of the same binary - every 10th case in quick, every case in thorough. Compared block by block: AppHash, per-tx code/codespace/gas wanted/gas used/data and ordered events, ordered BeginBlock and EndBlock events. Non-trivial = a reward block saw >= 2 distinct listed provers with a live gauge, or an ACL message carried >= 3 ids, or a form was requested; distinct = distinct recorded histories.",
+	rec.Describe("ABCI-mode differential: a history of 5-25 blocks of signed transactions over all custom modules (several provers proving the same file so that they are credited equal sizes in the same reward block, funded gauges, attestation/report form requests with their height-seeded shuffles, file-tree ACL edits with 2-4 ids, name-service bids, notifications, plus adversarial reflective messages) is generated while executing on a primary app; the recorded signed bytes are then replayed on (i) a second independent app instance in the same process - every case; in every other case that instance also answers gRPC queries of all custom modules against the last committed state and runs the mempool check (CheckTx) on each transaction between the steps of block execution, as an RPC-serving node does, (ii) the same 1.1 s later - a sample, (iii) a fresh child process of the same binary - every 10th case in quick, every case in thorough. Compared block by block: AppHash, per-tx code/codespace/gas wanted/gas used/data and ordered events, ordered BeginBlock and EndBlock events. Non-trivial = a reward block saw >= 2 distinct listed provers with a live gauge, or an ACL message carried >= 3 ids, or a form was requested; distinct = distinct recorded histories.",
 		"same binary, same machine: nondeterminism that needs another architecture, Go version or libwasmvm build is out of reach",
 		"Go randomises map iteration per range statement, so a map-order dependence shows with probability >= 1/2 per affected block in (i)")
 	if os_only_regress() {
@@ -80,12 +80,24 @@ func TestC06(t *testing.T) {
 		if panicMsg != "" {
 			rt.Skip() // a panic in block processing is C05's subject; nothing to compare
 		}
-		second, c2 := replayHistory(b.rec)
+		// the second instance also serves queries and mempool checks while it executes (every other case)
+		noisy := n%2 == 0
+		second, c2 := replayHistoryNoisy(b.rec, noisy)
 		c2.Close()
 		if d := compareRuns(b.results, second); d != "" {
+			if noisy {
+				quietRun, c4 := replayHistory(b.rec)
+				c4.Close()
+				if compareRuns(b.results, quietRun) == "" {
+					failf(rt, rec, "C06/queries-change-results", b.trace, "an instance that answers queries and mempool checks between the steps of block execution disagrees with one that does not: %s", d)
+				}
+			}
 			failf(rt, rec, "C06/same-process", b.trace, "two app instances in one process disagree: %s", d)
 		}
 		rec.Count("same-process-pairs")
+		if noisy {
+			rec.Count("pairs-with-interleaved-queries")
+		}
 		if n%7 == 0 {
 			time.Sleep(1100 * time.Millisecond)
 			third, c3 := replayHistory(b.rec)
